@@ -96,6 +96,9 @@ class ModelResultsHandler:
         """
         for agg in self.aggregates:
             merge_on = ["postal_code", "reporting", agg]
+            # for district offices every aggregate is keyed by district as well (see client.get_aggregate_list)
+            if agg != "district" and all("district" in estimates_df.columns for estimates_df in self.estimates[agg]):
+                merge_on.append("district")
             # joins together dfs of the same level of aggregation (different estimands)
             agg_df = reduce(lambda x, y: pd.merge(x, y, how="inner", on=merge_on), self.estimates[agg])
             self.final_results[VALID_AGGREGATES_MAPPING.get(agg)] = agg_df
